@@ -27,6 +27,8 @@ def standard(prop, spec, tier, seed, keep=False, replay=None):
     rc = 2
     try:
         runs = spec[tier]
+        if os.environ.get("VERIF_ONLY_CONFIG"):      # development aid: one configuration only (floors will not be met)
+            runs = [r for r in runs if r[0] == os.environ["VERIF_ONLY_CONFIG"]]
         if replay:
             runs = [r for r in runs if r[0] == replay.get("config")] or runs[:1]
         for run in runs:
@@ -66,15 +68,15 @@ def standard(prop, spec, tier, seed, keep=False, replay=None):
             results = vlib.run_shards(exe, os.path.join(cdir, "run"), nshards, cases, seed,
                                       thorough=(tier == "thorough"), env_fn=env_fn,
                                       timeout=spec.get("timeout", {"quick": 900, "thorough": 5400})[tier],
-                                      extra_args=extra, prop=prop, budget=spec.get("budget"), only_shard=only, first_args=first,
-                                      stack_mb=spec.get("stack_mb"))
+                                      extra_args=extra, prop=prop, budget=opts.get("budget", spec.get("budget")), only_shard=only, first_args=first,
+                                      stack_mb=spec.get("stack_mb"), wrapper=vlib.memcheck_wrapper if config == "memcheck" else None)
             if any(r.timed_out for r in results) and not replay:
                 log("watchdog fired; retrying once")
                 results = vlib.run_shards(exe, os.path.join(cdir, "run2"), nshards, cases, seed,
                                           thorough=(tier == "thorough"), env_fn=env_fn,
                                           timeout=spec.get("timeout", {"quick": 900, "thorough": 5400})[tier],
-                                          extra_args=extra, prop=prop, budget=spec.get("budget"), first_args=first,
-                                          stack_mb=spec.get("stack_mb"))
+                                          extra_args=extra, prop=prop, budget=opts.get("budget", spec.get("budget")), first_args=first,
+                                          stack_mb=spec.get("stack_mb"), wrapper=vlib.memcheck_wrapper if config == "memcheck" else None)
             out.absorb([r for r in results if only is None or r.shard == only], config + opts.get("tag", ""),
                        dict(config=config, nshards=nshards, cases=cases))
         post = spec.get("post")
